@@ -27,6 +27,14 @@ def run(pid, tier, seed, ROOT, REPO, WORK):
     for l in typed:
         if l != 'typed same_as_pointee=1 roundtrip_equal=1 strong=1 option_flavour_equal=1 option_strong=1 null_is_none=1':
             bad.append('typed round trip: ' + l)
+    # a store into the container from inside the pointee's own serialize: the stream must be that of
+    # the one snapshot taken (id 1, tag "first"), which must not have been destroyed meanwhile
+    reent = [l for l in il if l.startswith('reentrant ')]
+    for l in reent:
+        if 'json=[1,0,"first"]' not in l:
+            bad.append('a write during serialization: the value being serialized was destroyed or replaced under the serializer: ' + l)
+    if len(reent) != 6:
+        bad.append(f'reentrant serialization cases: {len(reent)} of 6 ran')
     out['coverage'] = {'evaluations': len(cases) + len(typed), 'distinct_nontrivial': len([p for p in distinct if ' ' in p]) + 1,
                        'traces_validated_against_impl': len(cases) - len(modelbad),
                        'value_shapes': kinds,
